@@ -1,7 +1,13 @@
 #!/bin/sh
 # trymut.sh <property> <patch.diff> : apply a seeded change to /repo, run the property's quick check, undo.
+# The evidence file and the generated model are put back afterwards, so that nothing from a mutated tree is
+# ever committed.
 pid=$1; patch=$2
+cp /verif/evidence/$pid.json /tmp/.trymut_evidence_$pid.json 2>/dev/null
 cd /repo && git apply "$patch" || { echo "patch does not apply"; exit 2; }
 cd /verif && ./check $pid 2>&1 | grep -E "^\[check\] (theorems|corresp|search|  disag)|VIOLATION|KNOWN" | cut -c1-260
-rc=$?
-cd /repo && git checkout -- . 
+cd /repo && git checkout -- .
+cd /verif && ./rs2lean/target/release/rs2lean /repo/src lean/Statrs/Gen harness/src/gen_dispatch.rs >/dev/null 2>&1
+[ -f /tmp/.trymut_evidence_$pid.json ] && mv /tmp/.trymut_evidence_$pid.json /verif/evidence/$pid.json
+rm -rf /verif/replay/$pid-*.json 2>/dev/null
+true
